@@ -39,8 +39,12 @@ func NewQueue[T any]() *Queue[T] {
 
 // Len returns the total number of items in the queue
 func (q *Queue[T]) Len() int {
+	// both counters must belong to the same moment: an enqueue and a dequeue
+	// between two unsynchronised loads made the difference negative
+	q.mx.RLock()
 	writeCount := q.writeCount.Load()
 	readCount := q.readCount.Load()
+	q.mx.RUnlock()
 
 	if writeCount < readCount {
 		// The writeCount counter wrapped around
